@@ -168,3 +168,12 @@ class Workbook:
             raise Unmodelled(f'Evaluator(model, namespace) ends in {out.end} {out.value!r}')
         self.evaluators[key] = out.value
         return out.value
+
+
+def error_code(ctx, short):
+    """'#DIV/0!' for 'DivZeroExcelError' (the class attribute, as written)."""
+    cm, code = ctx.res.class_attr('pkg:xlfunctions.xlerrors:' + short, 'value')
+    try:
+        return ctx.fold(code, cm) if code is not None else None
+    except Exception:
+        return None
